@@ -136,6 +136,21 @@ def template_position_case(args):
                 got3 = "%s: %s" % (type(e).__name__, str(e)[:80])
             if got3 != want:
                 out.append({"expression": src, "position": "default of a nested def named %s, names from the context" % inner, "expected": want, "got": got3})
+        # ... and under the name of the parameter itself (the `x=x` idiom: the default is read in the enclosing scope)
+        if "a" in src.replace("lambda", ""):
+            try:
+                got5 = Template('<%%def name="outer()"><%%def name="zz(a=%s)">${repr(a)}</%%def>${zz()}</%%def>${outer()}' % src).render_unicode(**env)
+            except Exception as e:
+                got5 = "%s: %s" % (type(e).__name__, str(e)[:80])
+            if got5 != want:
+                out.append({"expression": src, "position": "default of a nested def's parameter a that reads the outer a", "expected": want, "got": got5})
+        # ... and as the default of a keyword-only parameter of a nested def
+        try:
+            got4 = Template('<%%def name="outer()"><%%def name="zz(*rest, v=%s)">${repr(v)}</%%def>${zz()}</%%def>${outer()}' % src).render_unicode(**env)
+        except Exception as e:
+            got4 = "%s: %s" % (type(e).__name__, str(e)[:80])
+        if got4 != want:
+            out.append({"expression": src, "position": "keyword-only default of a nested def, names from the context", "expected": want, "got": got4})
         try:
             got2 = Template("${'x' | wrap(%s)}" % src).render_unicode(wrap=lambda v: (lambda s: repr(v)), **env)
         except Exception as e:
